@@ -526,9 +526,9 @@ func (c *TermCtx) Bin(op Op, a, b *Term) *Term {
 			if b.k == 0 {
 				return a
 			}
-			k := int(b.k)
-			if k >= w {
-				k = w - 1
+			k := w - 1
+			if b.k < uint64(w) {
+				k = int(b.k)
 			}
 			return c.SExt(c.Extract(a, w-1, k), w)
 		}
